@@ -183,8 +183,13 @@ def gen_case(rng: random.Random, tier: str, bias: str = ''):
     ep = rng.choice([0.03, 0.1, 0.3]) if lazy else 0.0
     ch = rng.choice([('random', ep), ('random', ep), ('sticky', 0.2, ep), ('sticky', 0.05, ep),
                      ('pct', 2, 200, ep), ('pct', 3, 200, ep)])
-    return dict(bs=bs, wait=wait_arg, ulog=ulog, end=end, arrivals=arrivals, holds=holds, lazy=lazy,
+    case = dict(bs=bs, wait=wait_arg, ulog=ulog, end=end, arrivals=arrivals, holds=holds, lazy=lazy,
                 bias=bias, chooser=list(ch), seed=rng.randrange(1 << 30))
+    # one EagerBatcher object used for up to three rounds (a run of items closed by its own end marker each), when
+    # the generated arrivals end with their only end marker
+    ends = [k for k, (_t, v) in enumerate(arrivals) if is_end(mat(v), end)]
+    case['rounds'] = 1 + case['seed'] % 3 if ends == [len(arrivals) - 1] else 1
+    return case
 
 
 def eff_wait(case):
@@ -292,17 +297,22 @@ def _run(case):
             return x
         return int(x)
 
+    logging_on = [True]
+
     class LogQueue(queue.Queue):
         def _put(self, item):
-            ev.append(('arrive', enc(item), clock()))
+            if logging_on[0]:
+                ev.append(('arrive', enc(item), clock()))
             super()._put(item)
 
         def _get(self):
             item = super()._get()
-            ev.append(('take', enc(item), clock()))
+            if logging_on[0]:
+                ev.append(('take', enc(item), clock()))
             return item
 
     received = []
+    round2 = []
 
     def main():
         q = LogQueue()
@@ -322,7 +332,8 @@ def _run(case):
             kw['batch_wait_time'] = case['wait'] * U
         if end is not None or case.get('explicit_none'):
             kw['endmarker'] = end
-        it = iter(EagerBatcher(q, batch_size=bs, **kw))
+        eb = EagerBatcher(q, batch_size=bs, **kw)
+        it = iter(eb)
         holds = case['holds']
         k = 0
         while True:
@@ -339,6 +350,19 @@ def _run(case):
                 time.sleep(h * U)
             ev.append(('resume', clock()))
         th.join()
+        # Further rounds over the SAME object and queue: the producer sends another run closed by its own end
+        # marker, the consumer iterates the batcher again.  Every iteration partitions "the items received before
+        # the end marker" (not replayed through the model: the first round is; judged directly).
+        logging_on[0] = False
+        for rnd in range(case.get('rounds', 1) - 1):
+            items = [1000 * (rnd + 1) + i for i in range(1 + (case['seed'] + rnd) % (2 * bs + 1))]
+            for x in items:
+                q.put(x)
+            q.put(end)
+            got = [list(b) for b in eb]
+            if [x for b in got for x in b] != items or any(not (1 <= len(b) <= bs) for b in got):
+                round2.append(f'round {rnd + 2} over the same EagerBatcher: sent {items} then the end marker, got batches {got}')
+                break
         return True
 
     chooser = detsched.make_chooser(tuple(case['chooser']), case['seed'])
@@ -368,6 +392,8 @@ def _run(case):
         mon.append(dict(prop='C19', rule='no-delay', detail=f'clock values that are not multiples of the unit: {bad_clock[:3]} '
                                                             '(the code waited for a time nobody asked for)'))
     mon += monitor(case, ev, received, blocked)
+    for d in round2:
+        mon.append(dict(prop='C19', rule='reiterate', detail=d))
     return res
 
 
